@@ -109,20 +109,30 @@ impl Sampler for Multinomial {
 
 /// Sample an item from a vector of probabilities.
 ///
-/// Returns the index of the selected item, or `None` if the vector is empty
-/// or sums to less than 1.
+/// Returns the index of the selected item, or `None` if the vector is empty,
+/// contains NaNs or has no entries with a non-zero probability.
 fn multinomial(rng: &mut fastrand::Rng, probs: &[f32]) -> Option<usize> {
     let target = rng.f32();
 
     let mut cum_prob = 0.;
+    let mut last_nonzero = None;
     for (idx, &prob) in probs.iter().enumerate() {
         cum_prob += prob;
-        if target <= cum_prob {
+
+        // `target` is in `[0, 1)`. The comparison is strict so that an item
+        // with zero probability is never selected, even if `target` is zero.
+        if target < cum_prob {
             return Some(idx);
+        }
+        if prob > 0. {
+            last_nonzero = Some(idx);
         }
     }
 
-    None
+    // Due to rounding the probabilities may sum to slightly less than one and
+    // `target` can fall into the gap. Select the last item which has a
+    // non-zero probability in that case.
+    if cum_prob.is_nan() { None } else { last_nonzero }
 }
 
 /// Verification hooks (only compiled with `--cfg rten_verif`).
